@@ -8,6 +8,7 @@
 """
 import random
 import sys
+import time
 
 import numpy as np
 
@@ -69,6 +70,22 @@ class StubRandom(_real_Random):
         return self._next('getrandbits', k)
 
 
+ENTROPY_DRAWS = [0]  # total number of unseeded generator constructions answered by any seam (read by the ownership oracle)
+
+
+def rng_fingerprint():
+    """cheap fingerprint of every source of randomness a 'pure' call must not touch"""
+    st = np.random.get_state(legacy=True)
+    fp = [ENTROPY_DRAWS[0], int(st[2]), int(st[1][0]), int(st[1][-1]), hash(random.getstate()[1][-1:] + random.getstate()[1][:2])]
+    try:
+        import torch
+        t = torch.get_rng_state()
+        fp.append(bytes(t[:24].numpy().tobytes()) + bytes(t[-16:].numpy().tobytes()))
+    except Exception:
+        pass
+    return fp
+
+
 class EntropySeam:
     """While active, unseeded generator constructions are logged in self.hits and seeded with `stream`."""
 
@@ -93,6 +110,7 @@ class EntropySeam:
             if seed is None:
                 seam.hits.append(('np.random.default_rng', seam._site()))
                 seam._count += 1
+                ENTROPY_DRAWS[0] += 1
                 return _real_default_rng([777, seam.stream, seam._count])
             return _real_default_rng(seed)
 
@@ -105,6 +123,7 @@ class EntropySeam:
                 if x is None:
                     seam.hits.append(('random.Random', seam._site()))
                     seam._count += 1
+                    ENTROPY_DRAWS[0] += 1
                     x = 777000 + 1000 * seam.stream + seam._count
                 super().__init__(x)
         self._saved = (np.random.default_rng, random.Random)
@@ -145,6 +164,13 @@ def reset_global_rngs(seed=0):
     torch.manual_seed(seed)
 
 
+# Public numqi functions that return a shared, cached array by design of the pinned tree (functools.lru_cache on a function
+# that returns an ndarray). Writing into such a result corrupts later calls; this exists on the unchanged tree, lies outside
+# the quantifiers of the properties concerned (inputs, not mutation histories) and is documented in DESIGN.md 9.3 as a known
+# limit: the result-aliasing oracle skips exactly these functions (the overwritten-by-a-later-call oracle still applies).
+SHARED_RESULT_FUNCTIONS = set()
+
+
 class ImmutabilityGuard:
     """Oracle 'a public numqi function does not modify the arrays it is given', installed from outside the package.
 
@@ -153,10 +179,15 @@ class ImmutabilityGuard:
     arguments and compares them after the call. Library-internal calls (depth > 0) are passed through unchecked: internal
     helpers may use scratch buffers by design. Violations are collected in self.events and drained by the engine per case."""
 
-    def __init__(self, prefixes, exclude=(), layout_prefixes=()):
+    def __init__(self, prefixes, exclude=(), layout_prefixes=(), own_exclude=(), own=True):
         self.prefixes = tuple(prefixes)
         self.exclude = set(exclude)
         self.layout_prefixes = tuple(layout_prefixes)
+        self.own = own                      # result-ownership oracles (see _own_check)
+        self.own_exclude = set(own_exclude)  # functions documented / known to return shared (cached) arrays
+        self.last = {}                      # qual -> arrays of the previous depth-0 result (strong references)
+        self.own_stats = {'recalled': 0, 'skipped_impure': 0, 'skipped_slow': 0, 'skipped_view_of_argument': 0, 'clobber_checked': 0}
+        self._sig = {}
         self.depth = 0
         self.events = []
         self.installed = 0
@@ -235,6 +266,193 @@ class ImmutabilityGuard:
                 self.events.append((qual, 'layout:value differs'))
                 return
 
+    # ---- result-ownership oracles. What a public function returns belongs to the caller:
+    #  (a) a later call of the same function must not change an earlier result (a scratch / output buffer hoisted to module
+    #      scope, a result written into a shared table), and
+    #  (b) writing into a result must not change what the same call returns next time (a cache or a module-level table
+    #      handed out by reference). (b) is decided by: copy the result, overwrite it in place, repeat the call with the same
+    #      (pure) arguments, compare with the copy, restore. Results that are views of an *argument* are the caller's own
+    #      memory and are skipped; functions that draw unseeded randomness or receive stateful objects are skipped.
+    @staticmethod
+    def _arrays_of(r, acc=None, depth=0):
+        acc = [] if acc is None else acc
+        if isinstance(r, np.ndarray):
+            if r.dtype.kind in 'biufc' and r.size:
+                acc.append(r)
+        elif hasattr(r, 'detach') and hasattr(r, 'untyped_storage'):
+            if r.numel():
+                acc.append(r)
+        elif isinstance(r, (tuple, list)) and depth < 3:
+            for y in r:
+                ImmutabilityGuard._arrays_of(y, acc, depth + 1)
+        elif isinstance(r, dict) and depth < 3:
+            for y in r.values():
+                ImmutabilityGuard._arrays_of(y, acc, depth + 1)
+        return acc
+
+    @staticmethod
+    def _pure(x, depth=0):
+        if x is None or isinstance(x, (bool, int, float, complex, str, bytes, np.generic)):
+            return True
+        if isinstance(x, np.ndarray):
+            return x.dtype.kind in 'biufcUS'
+        if hasattr(x, 'detach') and hasattr(x, 'untyped_storage'):
+            return not x.requires_grad
+        if isinstance(x, (tuple, list, set, frozenset)) and depth < 4:
+            return all(ImmutabilityGuard._pure(y, depth + 1) for y in x)
+        if isinstance(x, dict) and depth < 4:
+            return all(ImmutabilityGuard._pure(y, depth + 1) for y in x.values())
+        return False
+
+    @staticmethod
+    def _shares(x, y):
+        try:
+            if isinstance(x, np.ndarray) and isinstance(y, np.ndarray):
+                return bool(np.may_share_memory(x, y))
+            if hasattr(x, 'untyped_storage') and hasattr(y, 'untyped_storage'):
+                return x.untyped_storage().data_ptr() == y.untyped_storage().data_ptr()
+            # numpy view of a tensor or the other way round
+            if hasattr(x, 'untyped_storage') and isinstance(y, np.ndarray):
+                x, y = y, x
+            if isinstance(x, np.ndarray) and hasattr(y, 'untyped_storage') and not y.requires_grad:
+                return bool(np.may_share_memory(x, y.detach().numpy()))
+        except Exception:
+            pass
+        return False
+
+    @staticmethod
+    def _val(x):
+        return x if isinstance(x, np.ndarray) else x.detach().cpu().numpy()
+
+    @staticmethod
+    def _differs(x, y):
+        """x: reference copy, y: value to compare (numpy arrays)"""
+        if x.shape != y.shape:
+            return True
+        if x.dtype.kind in 'fc' or y.dtype.kind in 'fc':
+            with np.errstate(all='ignore'):
+                if not np.isfinite(x).all():
+                    return False
+                if not np.isfinite(y).all():
+                    return True
+                d = np.abs(x.astype(np.complex128) - y.astype(np.complex128))
+                sc = max(1.0, float(np.abs(x).max()) if x.size else 1.0)
+                return bool(d.size and float(d.max()) > 1e-6 * sc)
+        return not np.array_equal(x, y)
+
+    def _seed_unseeded(self, f, a, kw):
+        import inspect
+        if f not in self._sig:
+            try:
+                self._sig[f] = inspect.signature(f)
+            except (TypeError, ValueError):
+                self._sig[f] = None
+        sig = self._sig[f]
+        if sig is None:
+            return True
+        if 'seed' not in sig.parameters:
+            return False
+        try:
+            b = sig.bind(*a, **kw)
+            b.apply_defaults()
+        except TypeError:
+            return True
+        sd = b.arguments.get('seed')
+        return not isinstance(sd, (int, np.integer)) or isinstance(sd, bool)
+
+    def _clobber_before(self, qual):
+        prev = self.last.get(qual)
+        if not prev:
+            return None
+        return [(x, self._val(x).copy()) for x in prev]
+
+    def _clobber_after(self, qual, snaps):
+        if snaps is None:
+            return
+        self.own_stats['clobber_checked'] += 1
+        for x, b in snaps:
+            try:
+                now = self._val(x)
+            except Exception:
+                continue
+            if now.shape != b.shape or now.tobytes() != b.tobytes():
+                self.events.append((qual, 'own:clobber'))
+                return
+
+    def _own_check(self, f, qual, a, kw, r, dt):
+        arrs = self._arrays_of(r)
+        # remember this result for (a); bounded size
+        if arrs and sum(int(np.prod(x.shape)) for x in arrs) <= 4_000_000:
+            self.last[qual] = arrs
+        else:
+            self.last.pop(qual, None)
+        if not arrs or qual in self.own_exclude:
+            return
+        if dt > 0.05:
+            self.own_stats['skipped_slow'] += 1
+            return
+        if not (all(self._pure(x) for x in a) and all(self._pure(v) for v in kw.values())) or self._seed_unseeded(f, a, kw):
+            self.own_stats['skipped_impure'] += 1
+            return
+        argarrs = self._arrays_of(list(a) + list(kw.values()))
+        todo = []
+        for x in arrs:
+            if isinstance(x, np.ndarray):
+                if not x.flags.writeable:
+                    continue
+            elif x.requires_grad or x.grad_fn is not None:
+                continue
+            if any(self._shares(x, y) for y in argarrs):
+                self.own_stats['skipped_view_of_argument'] += 1
+                continue
+            todo.append(x)
+        if not todo:
+            return
+        snaps = [self._val(x).copy() for x in todo]
+        try:
+            for x in todo:
+                if isinstance(x, np.ndarray):
+                    x[...] = (np.nan if x.dtype.kind in 'fc' else (not bool(x.flat[0]) if x.dtype.kind == 'b' else 113))
+                else:
+                    import torch
+                    with torch.no_grad():
+                        if x.is_floating_point() or x.is_complex():
+                            x.fill_(float('nan'))
+                        elif x.dtype == torch.bool:
+                            x.fill_(not bool(x.reshape(-1)[0]))
+                        else:
+                            x.fill_(113)
+            self.depth += 1
+            try:
+                try:
+                    r2 = f(*a, **kw)
+                except Exception as e:
+                    self.events.append((qual, 'own:recall_raises %s: %s' % (type(e).__name__, str(e)[:100])))
+                    return
+            finally:
+                self.depth -= 1
+            self.own_stats['recalled'] += 1
+            arrs2 = self._arrays_of(r2)
+            idx = {id(x): i for i, x in enumerate(arrs)}
+            for x, b in zip(todo, snaps):
+                i = idx[id(x)]
+                if i >= len(arrs2):
+                    continue
+                if self._differs(b, self._val(arrs2[i])):
+                    self.events.append((qual, 'own:alias'))
+                    break
+        finally:
+            for x, b in zip(todo, snaps):
+                try:
+                    if isinstance(x, np.ndarray):
+                        x[...] = b
+                    else:
+                        import torch
+                        with torch.no_grad():
+                            x.copy_(torch.from_numpy(b))
+                except Exception:
+                    pass
+
     @staticmethod
     def _snap(x):
         if isinstance(x, np.ndarray):
@@ -266,14 +484,25 @@ class ImmutabilityGuard:
             if guard.depth > 0:
                 return f(*a, **kw)
             before = [(i, x, guard._snap(x)) for i, x in enumerate(a)] + [(k, x, guard._snap(x)) for k, x in kw.items()]
+            prev = guard._clobber_before(qual) if guard.own else None
+            fp0 = rng_fingerprint() if guard.own else None
             guard.depth += 1
+            t0 = time.perf_counter()
             try:
                 r = f(*a, **kw)
             finally:
                 guard.depth -= 1
+            dt = time.perf_counter() - t0
             for i, x, b in before:
                 if b is not None and guard._changed(x, b):
                     guard.events.append((qual, i))
+            if guard.own:
+                guard._clobber_after(qual, prev)
+                if rng_fingerprint() == fp0:
+                    guard._own_check(f, qual, a, kw, r, dt)
+                else:
+                    guard.own_stats['skipped_impure'] += 1  # the call consumed randomness: repeating it is not a repetition
+                    guard.last.pop(qual, None)
             if guard.layout_prefixes and any(qual.startswith(p) for p in guard.layout_prefixes):
                 guard._layout_check(f, qual, a, kw, r)
             return r
